@@ -346,6 +346,30 @@ class Runner:
                 if not okk:
                     viol(f"search-wrong-after-workflow:{op}", f"{op} returned {len(result)} ids, expected {len(want)}")
                     return
+        # a last probe when the sequence ended with a key and no local index: "encrypt database" with a database that
+        # holds no posting at all ({} or keywords with empty lists).  A scheme may index it or refuse it; a refusal
+        # leaves files and flags as they were, an acceptance sets the flag - nothing in between.
+        if sid is not None and (flags & B_CFG) and (flags & B_KEY) and not (flags & B_ENC) and self.n % 2 == 0:
+            empty_db = rng.choice([{}, {b"kw1": [], b"kw2": []}])
+            snap_before = snapshot(os.path.join(self.client_root, sid))
+            acc.count("encrypt_probes_with_an_empty_database")
+            try:
+                self.Service(sid).handle_encrypt_database(copy.deepcopy(empty_db))
+                ok_ = True
+            except Exception as e:
+                ok_, detail = False, f"{type(e).__name__}: {e}"
+            persisted = self.persisted_flags(sid)
+            if ok_:
+                if persisted != (flags | B_ENC):
+                    viol("empty-database:accepted-but-flag-not-stored", f"encrypt with {empty_db!r} was accepted but "
+                                                                        f"service_meta holds {persisted}")
+            else:
+                snap_after = snapshot(os.path.join(self.client_root, sid))
+                if snap_after != snap_before or persisted != flags:
+                    changed = sorted(k for k in set(snap_before) | set(snap_after) if snap_before.get(k) != snap_after.get(k))
+                    viol("refused-op-changed-files:encrypt-empty-database",
+                         f"encrypt with {empty_db!r} was refused ({detail[:60]}) but changed {changed} in the service "
+                         f"directory")
         acc.add("distinct", fp(scheme, list(seq)))
         acc.add("distinct_traces", fp(trace))
         if self.n <= 2:
